@@ -54,6 +54,10 @@ var modes = []mode{
 }
 
 func checkArtifact(r *mon.Run, a artifact, ks func(n int) []int, exhaustive bool) {
+	checkArtifactSplit(r, a, ks, exhaustive, -1)
+}
+
+func checkArtifactSplit(r *mon.Run, a artifact, ks func(n int) []int, exhaustive bool, splitIndex int) {
 	t0 := time.Now()
 	var clean bytes.Buffer
 	n0, err := a.run(&clean)
@@ -72,6 +76,23 @@ func checkArtifact(r *mon.Run, a artifact, ks func(n int) []int, exhaustive bool
 		return
 	}
 	positions := ks(len(full))
+	if splitIndex >= 0 {
+		// one artifact per process when it is small; the positions of a long one are dealt out to all processes (each
+		// still runs its positions one after another in one process, so state left behind by a failed call is seen)
+		if len(full) <= 1500 {
+			if !r.Mine(splitIndex) {
+				return
+			}
+		} else {
+			var mine []int
+			for _, k := range positions {
+				if (k+splitIndex)%r.NShards == r.Shard {
+					mine = append(mine, k)
+				}
+			}
+			positions = mine
+		}
+	}
 	for _, m := range modes {
 		if m.counting && !a.hasCount {
 			continue
@@ -194,6 +215,15 @@ func bundleArtifact(name string, b *bundle.Bundle) artifact {
 	return artifact{"Bundle.WriteTo", name, true, func(w io.Writer) (int64, error) { return b.WriteTo(w) }}
 }
 
+// manyHeaders is a response header set with n fields (Content-Type among them): maps above 32 and 64 entries.
+func manyHeaders(n int) http.Header {
+	h := http.Header{"Content-Type": {"text/html"}}
+	for i := 1; i < n; i++ {
+		h[fmt.Sprintf("X-Field-%03d", i)] = []string{fmt.Sprintf("v%d", i)}
+	}
+	return h
+}
+
 func main() { mon.Main("C19", run) }
 
 func run(r *mon.Run) {
@@ -223,6 +253,8 @@ func run(r *mon.Run) {
 		{"b1-variants", gen.BundleOpts{Version: bver.VersionB1, NEx: 1, VariantSets: 1}},
 		{"b1-2ex-manifest-signatures", gen.BundleOpts{Version: bver.VersionB1, NEx: 2, Manifest: true, Signatures: true, Certs: acs}},
 		{"b2-25ex", gen.BundleOpts{Version: bver.VersionB2, NEx: 25}},
+		{"b2-70ex", gen.BundleOpts{Version: bver.VersionB2, NEx: 70}}, // (collection sizes above 32 and 64)
+		{"b1-40ex", gen.BundleOpts{Version: bver.VersionB1, NEx: 40}},
 	}
 	for i, x := range bos {
 		x.o.SmallHeader = true
@@ -261,7 +293,7 @@ func run(r *mon.Run) {
 			payload int
 			rs      int
 			hdrs    http.Header
-		}{{"small", 40, 16, nil}, {"empty-payload", 0, 16, nil}, {"noheaders", 10, 4096, http.Header{}}} {
+		}{{"small", 40, 16, nil}, {"empty-payload", 0, 16, nil}, {"noheaders", 10, 4096, http.Header{}}, {"40-headers", 10, 16, manyHeaders(40)}, {"70-headers", 3, 16, manyHeaders(70)}} {
 			spec := gen.DefaultSXG(g, ver, id256, "example.com", shape.payload, shape.rs)
 			if shape.hdrs != nil {
 				spec.RespHeaders = shape.hdrs
@@ -329,14 +361,18 @@ func run(r *mon.Run) {
 		encArt("EncodeArrayHeader(1000)", func(e *cbor.Encoder) error { return e.EncodeArrayHeader(1000) }),
 		encArt("EncodeBool(true)", func(e *cbor.Encoder) error { return e.EncodeBool(true) }),
 	)
-	for n := 0; n <= 4; n++ {
+	mapSizes := []int{0, 1, 2, 3, 4, 23, 24, 32, 33, 64, 65, 100, 257}
+	if r.Thorough {
+		mapSizes = append(mapSizes, 1025)
+	}
+	for _, n := range mapSizes {
 		n := n
 		arts = append(arts, encArt(fmt.Sprintf("EncodeMap(%d entries)", n), func(e *cbor.Encoder) error {
 			var mes []*cbor.MapEntryEncoder
 			for i := 0; i < n; i++ {
 				i := i
 				mes = append(mes, cbor.GenerateMapEntry(func(k, v *cbor.Encoder) {
-					k.EncodeTextString(fmt.Sprintf("key-%d", 9-i))
+					k.EncodeTextString(fmt.Sprintf("key-%d", 2000-i))
 					v.EncodeByteString(bytes.Repeat([]byte{byte(i)}, 10+i))
 				}))
 			}
@@ -367,9 +403,7 @@ func run(r *mon.Run) {
 
 	r.Exhaustive(true)
 	for i, a := range arts {
-		if r.Mine(i) {
-			checkArtifact(r, a, every, true)
-		}
+		checkArtifactSplit(r, a, every, true, i)
 	}
 	for i, a := range big {
 		if r.Mine(i) && (r.Thorough || i%2 == r.Shard%2) {
